@@ -9,7 +9,7 @@
 (*         and finished before) / "never" (never opened)                   *)
 (*   pay   payload class: "empty", "garbage", "settings-ok",               *)
 (*         "settings-odd", "scheme-ok", "scheme-big", "scheme-huge",       *)
-(*         "scheme-neg", "scheme-nonnum", "max"                            *)
+(*         "scheme-neg", "scheme-nonnum", "max", "text-nonascii"           *)
 (* to a session (either role) that has an open stream, a SIBLING stream    *)
 (* with a blocked reader, and a sibling session.                           *)
 (* Allowed outcomes: the session CONTINUES correctly (sibling stream       *)
@@ -26,7 +26,8 @@ EXTENDS Integers, Sequences, FiniteSets, TLC, Json
 
 Cmds == 0..10 \cup {99}
 Sids == {"zero", "open", "finished", "never"}
-Pays == {"empty", "garbage", "settings-ok", "settings-odd", "scheme-ok", "scheme-big", "scheme-huge", "scheme-neg", "scheme-nonnum", "max"}
+Pays == {"empty", "garbage", "settings-ok", "settings-odd", "scheme-ok", "scheme-big", "scheme-huge", "scheme-neg", "scheme-nonnum", "max",
+         "text-nonascii"}   \* long text with multi-byte / invalid UTF-8 sequences at every alignment
 
 \* frames that carry no meaning for the receiver in that state: they must be ignored
 Inert(role, f) ==
